@@ -180,12 +180,15 @@ class ASPath(Attribute):
     def __eq__(self, other: object) -> bool:
         if not isinstance(other, ASPath):
             return False
-        return (
-            self.ID == other.ID
-            and self.FLAG == other.FLAG
-            and self._asn4 == other._asn4
-            and self._packed == other._packed
-        )
+        if self.ID != other.ID or self.FLAG != other.FLAG:
+            return False
+        if self._asn4 == other._asn4:
+            return bool(self._packed == other._packed)
+        # the same path held with 2 octet and with 4 octet AS numbers is the same path: it was
+        # unequal to itself once sent on a session of the other kind and decoded back
+        mine = [(segment.ID, list(segment)) for segment in self.aspath]
+        theirs = [(segment.ID, list(segment)) for segment in other.aspath]
+        return mine == theirs
 
     def __ne__(self, other: object) -> bool:
         return not self.__eq__(other)
